@@ -23,12 +23,14 @@
 (***************************************************************************)
 EXTENDS Integers, Sequences, FiniteSets, TLC
 
-CONSTANTS NumChunksSet, MaxItemsSet, MaxBytesSet, EvictSet,  \* candidate configuration values
+CONSTANTS Configs,       \* candidate configurations [nc, mi, mb, ev] (also ones that Verify rejects)
           UsedChunks,    \* keys are generated for chunks 1..Min(NumChunks, UsedChunks) only
           KeyIdx,        \* key indexes per chunk
           Sizes,         \* item sizes (>= 0)
           ImmunizeMax,   \* max number of keys in one ImmunizeKeys call
           KnownDefects,  \* set of deviation ids active in model checking
+          WithBad,       \* TRUE: every step record carries `bad`, the C27 predicates false on that step (behaviour
+                         \* export); FALSE: not computed (model checking and trace validation evaluate them directly)
           BothVariants,  \* TRUE: Init also chooses any subset of KnownDefects (behaviour export for both the
                          \* code as it is and the intended design); FALSE: exactly KnownDefects
           Log(_, _)
@@ -105,7 +107,8 @@ NumBytes(chs) == LET RECURSIVE S(_)
                      S(c) == IF c = 0 THEN 0 ELSE chs[c].nb + S(c - 1)
                  IN S(Len(chs))
 
-Proj(chs) == [ch |-> chs, cnt |-> Count(chs), nb |-> NumBytes(chs), ci |-> CountImmune(chs)]
+\* projected state: the chunks that can hold keys (all of them in trace validation) + the cache-level counters
+Proj(chs) == [ch |-> SubSeq(chs, 1, Min(Len(chs), UsedChunks)), cnt |-> Count(chs), nb |-> NumBytes(chs), ci |-> CountImmune(chs)]
 
 -----------------------------------------------------------------------------
 (* The property C27 as predicates over explicit pre/post values, so that the same text is used   *)
@@ -159,24 +162,27 @@ Bad(c, chs, mk, chs2, mk2, rec) ==
 Rec(a, in, out, chs2, mk2) ==
     LET r == [a |-> a, in |-> in, out |-> out] IN
     [a |-> a, in |-> in, out |-> out, st |-> Proj(chs2),
-     bad |-> Bad(cfg, chunks, marked, chs2, mk2, r)]
+     bad |-> IF WithBad THEN Bad(cfg, chunks, marked, chs2, mk2, r) ELSE {}]
 
 -----------------------------------------------------------------------------
-InitWith(c, dv) ==
-    /\ cfg = c
-    /\ alive = VerifyOK(c)
-    /\ ccfg = ChunkCfg(c, dv)
-    /\ chunks = [x \in 1..(IF VerifyOK(c) THEN c.nc ELSE 0) |-> EmptyChunk]
-    /\ marked = {}
-    \* out.cc: the chunk configuration (observable through the hook); out.ccs: every chunk configuration
-    \* this specification admits for c (a replay whose real chunk configuration is another member of
-    \* ccs belongs to the other variant and is skipped, not compared)
-    /\ hist = <<[a |-> "New", in |-> c,
-                 out |-> [ok |-> VerifyOK(c), cc |-> ChunkCfg(c, dv),
-                          ccs |-> {ChunkCfg(c, d) : d \in SUBSET AllDefects}],
-                 st |-> Proj([x \in 1..(IF VerifyOK(c) THEN c.nc ELSE 0) |-> EmptyChunk]), bad |-> {}]>>
+\* the state right after NewImmunityCache(c) when getChunkConfig behaves as variant dv
+NewState(c, dv) ==
+    LET chs == [x \in 1..(IF VerifyOK(c) THEN c.nc ELSE 0) |-> EmptyChunk] IN
+    [cfg |-> c, alive |-> VerifyOK(c), ccfg |-> ChunkCfg(c, dv), chunks |-> chs,
+     \* out.cc: the chunk configuration (observable through the hook); out.ccs: every chunk configuration
+     \* this specification admits for c (a replay whose real chunk configuration is another member of
+     \* ccs belongs to the other variant and is skipped, not compared)
+     rec |-> [a |-> "New", in |-> c,
+              out |-> [ok |-> VerifyOK(c), cc |-> ChunkCfg(c, dv),
+                       ccs |-> {ChunkCfg(c, d) : d \in SUBSET AllDefects}],
+              st |-> Proj(chs), bad |-> {}]]
 
-Init == \E c \in [nc : NumChunksSet, mi : MaxItemsSet, mb : MaxBytesSet, ev : EvictSet] :
+InitWith(c, dv) ==
+    LET n == NewState(c, dv) IN
+    /\ cfg = n.cfg /\ alive = n.alive /\ ccfg = n.ccfg /\ chunks = n.chunks /\ marked = {}
+    /\ hist = <<n.rec>>
+
+Init == \E c \in Configs :
             \E dv \in (IF BothVariants THEN SUBSET KnownDefects ELSE {KnownDefects}) : InitWith(c, dv)
 
 (* ImmunityCache.HasOrAdd -> immunityChunk.AddItem *)
